@@ -30,7 +30,7 @@ Qed.
 (* pg.List(items) / pg.Dict(items) as the only value of the forest *)
 Theorem constructed_root : forall k fl lits,
   f_sealed fl = false -> lit_valid (LitNode k fl false lits) = true ->
-  exists its, root_is (init_forest [LitNode k fl false lits] empty_state) 0 1%N k fl its /\ clean its /\
+  exists its, at_is (init_forest [LitNode k fl false lits] empty_state) (0%nat, []) 1%N k None fl its /\ clean its /\
               wfs (init_forest [LitNode k fl false lits] empty_state) /\
               eitems its = pitems (plit (LitNode k fl false lits)).
 Proof.
@@ -57,22 +57,22 @@ Hypothesis NQ : no_quirks q.
 Theorem history_of_constructed_list : forall fl lits h,
   f_sealed fl = false -> lit_valid (LitNode KList fl false lits) = true ->
   lhist2_ok fl (pvals (plit (LitNode KList fl false lits))) h ->
-  option_map erase (get_root (run_ops2 q (init_forest [LitNode KList fl false lits] empty_state) (on_root2 0 h)) 0) =
+  option_map erase (get_at (run_ops2 q (init_forest [LitNode KList fl false lits] empty_state) (on_pos2 (0%nat, []) h)) (0%nat, [])) =
   Some (plist (lhist2_py (pvals (plit (LitNode KList fl false lits))) h)).
 Proof.
   intros fl lits h NS V OK.
   destruct (constructed_root KList fl lits NS V) as (its & R & C & W & E).
   assert (EV : evals its = pvals (plit (LitNode KList fl false lits))) by (rewrite <- pvals_eitems, E; reflexivity).
-  rewrite <- EV in *. eapply history2_list_erase; eauto.
+  rewrite <- EV in *. eapply history2_list_erase; eauto. apply anc_clean_root.
 Qed.
 Theorem history_of_constructed_dict : forall fl lits h,
   f_sealed fl = false -> lit_valid (LitNode KDict fl false lits) = true ->
   dhist_ok fl (pitems (plit (LitNode KDict fl false lits))) h ->
-  option_map erase (get_root (run_ops q (init_forest [LitNode KDict fl false lits] empty_state) (on_root 0 h)) 0) =
+  option_map erase (get_at (run_ops q (init_forest [LitNode KDict fl false lits] empty_state) (on_pos (0%nat, []) h)) (0%nat, [])) =
   Some (PNode KDict (dhist_py (pitems (plit (LitNode KDict fl false lits))) h)).
 Proof.
   intros fl lits h NS V OK.
   destruct (constructed_root KDict fl lits NS V) as (its & R & C & W & E).
-  rewrite <- E in *. eapply history_dict_erase; eauto.
+  rewrite <- E in *. eapply history_dict_erase; eauto. apply anc_clean_root.
 Qed.
 End FromLiteral.
